@@ -37,6 +37,7 @@ fn later_op() -> impl Strategy<Value = Op> {
         3 => any::<u16>().prop_map(Op::Recreate),
         1 => (any::<u16>(), any::<u16>(), any::<u16>()).prop_map(|(a, b, c)| Op::BigWrite(a, b, c)),
         3 => any::<u16>().prop_map(Op::TailEdit),
+        2 => any::<u16>().prop_map(Op::Rewrite),
         2 => (any::<u16>(), any::<u16>(), any::<u16>(), any::<bool>()).prop_map(|(a, b, c, d)| Op::Move(a, b, c, d)),
         1 => Just(Op::StageAll),
         3 => Just(Op::CommitAll),
